@@ -272,6 +272,8 @@ def run(ch: Checker) -> None:
     extra = callers - allowed
     ch.check(not extra and callers, 'C07.4', prog.own_method('Threadless', '_cleanup'), 'who may tear a work down',
              '_cleanup called from %s' % sorted(callers), 'a new caller tears works down outside the enumerated reasons (task teardown, idle reaping, init failure, broken event refresh): %s' % sorted(extra))
+    # ---------------- C07.5 / C07.6 (shared)
+    ch.import_rules('C01', {'C01.2': 'C07.5', 'C01.3': 'C07.6'}, 'output is delivered once and completely only if flush removes exactly what was sent and the counter that has_buffer() reads agrees with the queue')
 
 
 def _parents(root: ast.AST) -> Dict[int, ast.AST]:
